@@ -653,7 +653,18 @@ func (self *RefExp) EncodeJSON(buf *bytes.Buffer) error {
 			dims = append(dims, k)
 		}
 		sort.Slice(dims, func(i, j int) bool {
-			return dims[i].Id < dims[j].Id
+			a, b := dims[i], dims[j]
+			if a.Id != b.Id {
+				return a.Id < b.Id
+			}
+			// Calls in different pipelines may go by the same name.
+			// Keep them in the order in which they are written.
+			al, bl := a.Node.Loc, b.Node.Loc
+			if al.File != nil && bl.File != nil &&
+				al.File.FullPath != bl.File.FullPath {
+				return al.File.FullPath < bl.File.FullPath
+			}
+			return al.Line < bl.Line
 		})
 		for _, s := range dims {
 			i := self.Forks[s]
